@@ -63,10 +63,10 @@ CHECKS = {
             "Programs built to sit on the 127-operand, 16383/16384-node (event doubling), 32767-node and 8/16 stack-class boundaries, x option subsets x event modes: Compile must reject exactly the programs the harness counts as beyond a limit, never panic; accepted programs must have the counted size, a sufficient stack bound (hook) and evaluate (Eval and TryEval) to R's value. The grid is enumerated (reduced in quick, full in thorough). Exploration over the constructed family.",
             "Trusted: the harness's flattening model (and/or directly inside the same operator is merged) and node accounting, cross-checked against the compiled program's size through the hook.", "§3 C09"),
     "C10": ("property-based testing with call-logging custom operators: compile-time vs run-time invocation accounting, repeated evaluation against the reference on the dumped program, folding-soundness predicate (rapid)",
-            "Constant-dense generated trees with declared-stateless, undeclared, stateful and failing operators x 16 subsets x 1-5 evaluations: Compile never fails, invokes only declared-stateless operators (nil context); each evaluation performs exactly the calls R performs on the dumped tree with state threaded through (a baked-in result shows from the 2nd evaluation); folding is checked against the stated rule as a validity predicate. Exploration.",
+            "Constant-dense generated trees with declared-stateless, undeclared, stateful and failing operators x 16 subsets x 1-5 evaluations: Compile never fails, invokes only declared-stateless operators; each evaluation performs exactly the calls R performs on the dumped tree with state threaded through (a baked-in result shows from the 2nd evaluation); folding is checked against the stated rule as a validity predicate. Exploration.",
             "Trusted: reference evaluator, Dump reader.", "§3 C10"),
     "C12": ("property-based testing of the event stream against the reference evaluator's list of operator applications, with retaining / buffered / scribbling consumers (rapid)",
-            "Generated case x subsets x {Eval, TryEval} x {ReportEvent, Debug} x three consumer behaviours: results, effects and Dump equal the event-free run; OP_EXEC events compared after the evaluation with R's applications on the dumped tree (names, arguments as at call time, results, IsFastOp); retained events equal receipt-time copies; LOOP positions increase. Exploration.",
+            "Generated case x subsets x {Eval, TryEval} x {ReportEvent, Debug} x three consumer behaviours: results, effects and Dump equal the event-free run; OP_EXEC events compared after the evaluation with R's applications on the dumped tree (names, arguments as at call time, results); retained events equal receipt-time copies; LOOP positions increase. Exploration.",
             "The final fold of a non-fast and/or with no absorbing operand may or may not be reported (decided by a jump).", "§3 C12"),
 }
 
